@@ -74,7 +74,7 @@ b("C03-b1", "C03", PACK, "        if index >= delta_length:\n            raise A
   "        index += 1\n", "R03.1")
 b("C03-b2", "C03", PACK, "    if index != delta_length:\n        raise ApplyDeltaError(f\"delta not empty: {delta[index:]!r}\")\n\n", "", "R03.2")
 b("C03-b3", "C03", "crates/pack/src/lib.rs", "Vec::with_capacity(dest_size.min(src_buf_len.saturating_add(delta_len)))", "Vec::with_capacity(dest_size)", "R03.3")
-b("C03-b4", "C03", "crates/pack/src/lib.rs", "        if i >= usize::BITS as usize || (bits << i) >> i != bits {\n            return Err(\"delta size header too large\");\n        }\n", "", "R03.4")
+b("C03-b4", "C03", "crates/pack/src/lib.rs", "            if i >= usize::BITS as usize || (bits << i) >> i != bits {\n                return Err(\"delta size header too large\");\n            }\n", "", "R03.4")
 b("C03-b5", "C03", PACK, "                or out_len > dest_size - cp_size\n", "", "R03.7")
 n("C03-n1", "C03", PACK, "    if index != delta_length:\n        raise ApplyDeltaError(f\"delta not empty: {delta[index:]!r}\")\n\n    if dest_size != chunks_length(out):\n        raise ApplyDeltaError(\"dest size incorrect\")\n",
   "    if dest_size != chunks_length(out):\n        raise ApplyDeltaError(\"dest size incorrect\")\n\n    if index != delta_length:\n        raise ApplyDeltaError(f\"delta not empty: {delta[index:]!r}\")\n")
@@ -104,14 +104,14 @@ b("C05-b4", "C05", SERVER, "        if not self.has_capability(CAPABILITY_INCLUD
 b("C05-b5", "C05", OS_, "        if sha in self._tagged:\n            self.add_todo([(self._tagged[sha], None, None, True)])\n",
   "        for tag_sha in self._tagged.values():\n            self.add_todo([(tag_sha, None, None, True)])\n", "R05.5")
 # ------------------------------------------------------------------ C06
-b("C06-b1", "C06", SERVER, "                            elif not self.repo.refs.set_if_equals(ref, oldsha, sha):\n                                ref_status = b\"failed to update ref\"\n                        except all_exceptions:\n                            ref_status = b\"failed to write\"\n                except KeyError:\n                    ref_status = b\"bad ref\"\n                yield (ref, ref_status)\n\n    def _report_status",
-  "                            else:\n                                self.repo.refs.set_if_equals(ref, oldsha, sha)\n                        except all_exceptions:\n                            ref_status = b\"failed to write\"\n                except KeyError:\n                    ref_status = b\"bad ref\"\n                yield (ref, ref_status)\n\n    def _report_status", "R06.1")
+b("C06-b1", "C06", SERVER, "                            elif not self.repo.refs.set_if_equals(ref, oldsha, sha):\n                                ref_status = b\"failed to update ref\"\n                        except all_exceptions:\n                            ref_status = b\"failed to write\"\n                except (KeyError, RefFormatError):\n                    ref_status = b\"bad ref\"\n                yield (ref, ref_status)\n\n    def _report_status",
+  "                            else:\n                                self.repo.refs.set_if_equals(ref, oldsha, sha)\n                        except all_exceptions:\n                            ref_status = b\"failed to write\"\n                except (KeyError, RefFormatError):\n                    ref_status = b\"bad ref\"\n                yield (ref, ref_status)\n\n    def _report_status", "R06.1")
 b("C06-b2", "C06", "dulwich/client.py", "                    if not target.refs.remove_if_equals(refname, old_sha1):\n                        _progress(f\"unable to remove {refname!r}\".encode())\n                        ref_status[refname] = \"unable to remove\"\n",
   "                    if not target.refs.remove_if_equals(refname, old_sha1):\n                        _progress(f\"unable to remove {refname!r}\".encode())\n", "R06.2")
 b("C06-b3", "C06", SERVER, "                    if current != oldsha:\n                        ref_status = b\"failed to update ref\"\n                        has_failure = True\n                    elif sha != zero_sha and sha not in self.repo.object_store:",
   "                    if sha != zero_sha and sha not in self.repo.object_store:", "R06.4")
-n("C06-n1", "C06", "dulwich/client.py", "                    if not target.refs.set_if_equals(refname, old_sha1, new_sha1):\n",
-  "                    updated = target.refs.set_if_equals(refname, old_sha1, new_sha1)\n                    if not updated:\n")
+n("C06-n1", "C06", "dulwich/client.py", "                    if not target.refs.remove_if_equals(refname, old_sha1):\n",
+  "                    removed = target.refs.remove_if_equals(refname, old_sha1)\n                    if not removed:\n")
 
 # ------------------------------------------------------------------ C07
 b("C07-b1", "C07", REFS, "                message=message,\n            )\n        except BaseException:\n            f.abort()\n            raise\n        else:\n            f.close()\n\n    def set_if_equals(",
@@ -161,7 +161,7 @@ b("C10-b1", "C10", "dulwich/gc.py", "                            continue\n     
   "                    except KeyError:\n                        # Object not found, skip it\n                        continue\n\n                unreachable_to_prune.add(sha)\n", "R10.2")
 b("C10-b2", "C10", "dulwich/gc.py", "            if obj.object[1] not in reachable:\n                pending.append(obj.object[1])\n                reachable.add(obj.object[1])\n", "            pass\n", "R10.3")
 b("C10-b3", "C10", OS_, "        for pack in self._update_pack_cache():\n            try:\n                return pack.get_raw(sha)\n            except (KeyError, PackFileDisappeared):\n                pass\n", "", "R10.5")
-b("C10-b4", "C10", OS_, "                try:\n                    yield from pack\n                except PackFileDisappeared as exc:\n                    self._evict_pack(exc.obj)\n", "                yield from pack\n", "R10.4")
+b("C10-b4", "C10", OS_, "                try:\n                    shas = list(pack)\n                except PackFileDisappeared as exc:\n                    self._evict_pack(exc.obj)\n                    continue\n", "                shas = list(pack)\n", "R10.4")
 n("C10-n1", "C10", "dulwich/gc.py", "    reachable = find_reachable_objects(\n        object_store, refs_container, include_reflogs, progress\n    )\n\n    unreachable: set[ObjectID] = set()\n",
   "    reachable = find_reachable_objects(\n        object_store, refs_container, include_reflogs, progress\n    )\n    if progress:\n        progress(\"reachable objects found\")\n\n    unreachable: set[ObjectID] = set()\n")
 
@@ -239,7 +239,9 @@ b("C20-b1", "C20", CFG, "        or b\"#\" in value\n        or b\";\" in value\
 b("C20-b2", "C20", CFG, "    value = value.replace(b\"\\n\", b\"\\\\n\")\n", "    value = value.replace(b\"\\r\", b\"\\\\r\")\n    value = value.replace(b\"\\n\", b\"\\\\n\")\n", "R20.1")
 b("C20-b3", "C20", CFG, "        if escaped:\n            # e.g. an escaped quote inside a quoted subsection name\n            escaped = False\n            continue\n        if character == backslash:\n            escaped = True\n        # Comment characters outside balanced quotes denote comment start\n        elif character == quote:",
   "        # Comment characters outside balanced quotes denote comment start\n        if character == quote:", "R20.3")
-b("C20-b4", "C20", CFG, "_STRIPPED_EDGE_CHARS = (b\" \", b\"\\t\", b\"\\n\", b\"\\r\", b\"\\x0b\", b\"\\x0c\")", "_STRIPPED_EDGE_CHARS = (b\" \", b\"\\t\")", "R20.2")
+b("C20-b4", "C20", CFG, "_STRIPPED_EDGE_CHARS = (b\" \", b\"\\t\", b\"\\n\", b\"\\r\", b\"\\x0b\", b\"\\x0c\")", "_STRIPPED_EDGE_CHARS = (b\"\\t\", b\"\\n\", b\"\\r\", b\"\\x0b\", b\"\\x0c\")", "R20.2")
+# since the parser strips only SP TAB CR LF and TAB, LF are escaped and CR forces quoting by its own clause, the shorter tuple is equivalent
+n("C20-n9", "C20", CFG, "_STRIPPED_EDGE_CHARS = (b\" \", b\"\\t\", b\"\\n\", b\"\\r\", b\"\\x0b\", b\"\\x0c\")", "_STRIPPED_EDGE_CHARS = (b\" \", b\"\\t\")")
 b("C20-b5", "C20", CFG, "    ord(b\"t\"): ord(b\"\\t\"),\n", "    ord(b\"t\"): ord(b\" \"),\n", "R20.1")
 n("C20-n1", "C20", CFG, "    value = value.replace(b\"\\t\", b\"\\\\t\")\n    value = value.replace(b'\"', b'\\\\\"')\n", "    value = value.replace(b'\"', b'\\\\\"')\n    value = value.replace(b\"\\t\", b\"\\\\t\")\n")
 
@@ -292,5 +294,5 @@ n("C19-n5", "C19", "dulwich/protocol.py", "            self._write(data)\n      
 n("C19-n6", "C19", "dulwich/protocol.py", "    split_text = text.rstrip().split(b\" \")\n", "    split_text = text.rstrip(b\" \\r\\n\\t\").split(b\" \")\n")
 b("C19-b7", "C19", "dulwich/protocol.py", "        data = self._wbuf.getvalue()\n        if data:\n            self._write(data)\n        self._len = 0\n",
   "        data = self._wbuf.getvalue()\n        if self._buflen:\n            self._write(data)\n        self._buflen = 0\n", "R19.10")
-b("C20-b9", "C20", CFG, "    value_array = bytearray(value.strip())\n",
-  "    if b'\"' not in value and b\"#\" not in value and b\";\" not in value:\n        return value.strip().replace(b\"\\\\\\\\\", b\"\\\\\").replace(b\"\\\\n\", b\"\\n\").replace(b\"\\\\t\", b\"\\t\")\n    value_array = bytearray(value.strip())\n", "R20.9")
+b("C20-b9", "C20", CFG, "    value_array = bytearray(value.strip(b\" \\t\\r\\n\"))\n",
+  "    if b'\"' not in value and b\"#\" not in value and b\";\" not in value:\n        return value.strip().replace(b\"\\\\\\\\\", b\"\\\\\").replace(b\"\\\\n\", b\"\\n\").replace(b\"\\\\t\", b\"\\t\")\n    value_array = bytearray(value.strip(b\" \\t\\r\\n\"))\n", "R20.9")
